@@ -483,7 +483,7 @@ mutual
       -- declsBySchema hit
       if let some dk := defKey then
         if let some dn := alookup dk st.byDef then
-          if st.derefDefs.contains dk && dn ≠ scope then
+          if st.derefDefs.contains dk && dn ≠ scope && isUniqueTypeName st scope then
             let al : Decl := { name := scope, ty := .named dn, body := .alias dn }
             if !(st.decls.any fun d => d.name == scope && (match d.body with | .alias t => t == dn | _ => false)) then
               set { st with decls := st.decls ++ [al] }
@@ -870,7 +870,17 @@ def Gen.run (cfg : Config) (doc : SchemaDoc) : Except GenErr Output :=
   | .error e => .error e
   | .ok (_, st) =>
     let missing := st.usedPkgs.filter (fun p => !st.imports.any (·.path == p))
-    let issues := st.issues ++ (if missing.isEmpty then [] else ["missing-import"])
+    -- the anyOf validator calls `x_i.Unmarshal<W>(value)` on a variable of every branch type `<Name>_<i>`:
+    -- a branch that is an alias of a type generated without a method does not compile
+    let noMethod := st.decls.any fun d => match d.body with
+      | .plain vs true => vs.any fun v => match v with
+          | .anyOf n => (List.range n).any fun i => match Env.resolve st.decls 8 s!"{d.name}_{i}" with
+              | some bd => !bd.hasMethod
+              | none => true
+          | _ => false
+      | _ => false
+    let issues := st.issues ++ (if missing.isEmpty then [] else ["missing-import"]) ++
+      (if noMethod then ["anyof-branch-without-method"] else [])
     .ok { fileName := cfg.outputName, pkg := cfg.pkg, imports := st.imports, decls := st.decls,
           warnings := st.warnings ++ issues.map (fun i => "ISSUE " ++ i) }
 
